@@ -178,7 +178,8 @@ Print Assumptions c05_searcher_failure_fills_slot.
 (* ---- DEHB's bracket manager (dehb_bracket_manager.py / dehb_bracket.py) --------------------
    [drun_from first md nb ops]: a DifferentialEvolutionHyperbandBracketManager built from the first
    bracket's rungs [first] with [nb] brackets per iteration, driven by DNext (request for work) and
-   DRet i t v (the i-th outstanding job returns with trial id t and metric v / NaN). *)
+   DRet i t v (the i-th outstanding job returns with trial id t and metric v / NaN) and DFail i (that job is
+   reported as failed the way dehb.py does it: trial id None, metric NaN). *)
 
 (* no assertion / exception of next_job / on_result is reachable *)
 Theorem c05_dehb_no_error :
@@ -187,8 +188,9 @@ Theorem c05_dehb_no_error :
 Proof. exact dehb_no_error. Qed.
 Print Assumptions c05_dehb_no_error.
 
-(* bracket j uses rung system j mod num_offsets (the suffix of the first bracket's rungs), its
-   completed rungs are fully occupied by (trial, value) and its higher rungs are untouched *)
+(* bracket j uses rung system j mod num_offsets (the suffix of the first bracket's rungs), every slot
+   of its completed rungs has a value — (trial, value), or (None, NaN) for a job reported as failed —
+   and its higher rungs are untouched *)
 Theorem c05_dehb_rungs_filled :
   forall first md nb ops m0 st, dehb_mgr_init first md nb = Ok m0 ->
   drun_from first md nb ops = Ok st ->
@@ -198,7 +200,7 @@ Theorem c05_dehb_rungs_filled :
     nth_error (m_offsets (d_mgr st)) j = Some (j mod length rss)%nat /\
     map entry_shape (rungs b) = nth (j mod length rss) rss [] /\
     (forall k sl lv, (k < current_rung b)%nat -> nth_error (rungs b) k = Some (Filled sl lv) ->
-       Forall (fun s => exists t v, s = (Some t, Some v)) sl) /\
+       Forall (fun s => snd s <> None /\ dslot_ok s) sl) /\
     (forall k sl lv, (current_rung b < k)%nat -> nth_error (rungs b) k = Some (Filled sl lv) ->
        Forall (fun s => s = (None, None)) sl).
 Proof. exact dehb_rungs_filled. Qed.
@@ -235,9 +237,39 @@ Theorem c05_dehb_top_of_previous_rung :
     get_top_list md vals (length sl) = (top, rest) /\
     (length sl <= length vals)%nat /\ length top = length sl /\
     top_list_for_previous_rung b = Ok top /\
-    forall pos t, nth_error top pos = Some t -> top_of_previous_rung (d_mgr st) bid pos = Ok t.
+    (forall pos t, nth_error top pos = Some t -> top_of_previous_rung (d_mgr st) bid pos = Ok t) /\
+    ((length sl <= length (valid_entries vals))%nat -> Forall (fun t => t <> None) top) /\
+    ((forall s, In s prev -> fst s <> None) -> Forall (fun t => t <> None) top).
 Proof. exact dehb_top_of_previous_rung. Qed.
 Print Assumptions c05_dehb_top_of_previous_rung.
+
+(* dehb.py's selection skeleton: the trial ids _mutation hands to _de_mutation for a job above the base
+   rung ([mutation_parent], then the lookup self._trial_info[trial_id] = [read_trial_info]) are real trial
+   ids IF at least as many jobs of the rung below have a valid result as the current rung has slots, or
+   no job of that rung was reported as failed ... *)
+Theorem c05_dehb_mutation_reads_trials :
+  forall first md nb ops m0 st bid b sl lv prev lvp vals gp rt,
+  dehb_mgr_init first md nb = Ok m0 -> drun_from first md nb ops = Ok st ->
+  nth_error (m_brackets (d_mgr st)) bid = Some b -> current_rung_and_level b = Ok (sl, lv) ->
+  (0 < current_rung b)%nat ->
+  nth_error (rungs b) (current_rung b - 1) = Some (Filled prev lvp) -> occupied_values prev = Some vals ->
+  ((length sl <= length (valid_entries vals))%nat \/ (forall s, In s prev -> fst s <> None)) ->
+  forall pos, (pos < length sl)%nat ->
+    exists t, read_trial_info (mutation_parent (d_mgr st) bid false lv (length sl) gp rt pos) = Ok t.
+Proof. exact dehb_mutation_reads_trials. Qed.
+Print Assumptions c05_dehb_mutation_reads_trials.
+
+(* ... and REFUTED for the code as it is without that condition (findings F-C13-3 / F-C05-3): failed
+   jobs sit in their rung as (None, NaN), get_top_list tops the list up with them when too few valid
+   results exist, and _de_mutation reads _trial_info[None] -> KeyError, suggest() does not answer. *)
+Theorem c05_dehb_mutation_reads_none_refuted :
+  exists first md nb ops st bid b sl lv gp rt pos,
+    drun_from first md nb ops = Ok st /\ (0 < bid)%nat /\
+    nth_error (m_brackets (d_mgr st)) bid = Some b /\ current_rung_and_level b = Ok (sl, lv) /\
+    (0 < current_rung b)%nat /\ (pos < length sl)%nat /\
+    read_trial_info (mutation_parent (d_mgr st) bid false lv (length sl) gp rt pos) = Error EKeyNone.
+Proof. exact dehb_mutation_reads_none_refuted. Qed.
+Print Assumptions c05_dehb_mutation_reads_none_refuted.
 
 (* regression example of former finding F-C05-2: the parent slot of a higher rung is found when
    there are fewer brackets per iteration than rung levels (an example, not a general theorem) *)
